@@ -616,9 +616,63 @@ def r87(ctx):
         raise AnalysisError(f"R-8.7: only {n} unit obligations could be formed")
 
 
+def r89(ctx):
+    """Rows written on the per-step path are on disk before the commit: every `.write(` in the
+    functions treat_output reaches before write_toml (and in write_toml / the path store) goes
+    to a handle bound by a `with open(...)` of the same function (closed when the block ends),
+    or is followed by flush()/close() of that handle in the same function."""
+    rid = "R-8.9"
+    tree = ctx.tree
+    cls = tree.cls(REPEX, "REPEX_state")
+    methods = {s.name: s for s in cls.body if isinstance(s, FUNC)}
+    mod = tree.modules[REPEX]
+    modfuncs = {q: f for q, f in mod.funcs.items() if "." not in q}
+    # functions reachable from treat_output (self.m() and module functions of repex.py)
+    seen, todo = {}, [methods["treat_output"]]
+    while todo:
+        f = todo.pop()
+        if id(f) in seen:
+            continue
+        seen[id(f)] = f
+        for c in [x for x in walk_local(f) if isinstance(x, ast.Call)]:
+            if is_self_attr(c.func) and c.func.attr in methods:
+                todo.append(methods[c.func.attr])
+            elif isinstance(c.func, ast.Name) and c.func.id in modfuncs:
+                todo.append(modfuncs[c.func.id])
+    funcs = list(seen.values()) + [tree.func(FORMATTER, "PathStorage.output_path_files")]
+    n = 0
+    for f in funcs:
+        withs = {}
+        for w in [x for x in walk_local(f) if isinstance(x, ast.With)]:
+            for it in w.items:
+                if isinstance(it.context_expr, ast.Call) and dotted(it.context_expr.func) == "open" and isinstance(it.optional_vars, ast.Name):
+                    withs[it.optional_vars.id] = w
+        for c in [x for x in walk_local(f) if isinstance(x, ast.Call) and isinstance(x.func, ast.Attribute) and (x.func.attr in ("write", "writelines") or (x.func.attr == "dump" and len(x.args) >= 2))]:
+            recv = c.args[1] if c.func.attr == "dump" else c.func.value
+            rp = path_of(recv)
+            if rp is None or rp.startswith("logger") or rp in ("sys.stdout", "sys.stderr"):
+                continue
+            n += 1
+            q = getattr(f, "_fq", f.name)
+            if isinstance(recv, ast.Name) and recv.id in withs and any(y is c for y in ast.walk(withs[recv.id])):
+                ctx.ok(rid, c, f"{q}: `{rp}.write` inside `with open(...) as {rp}`: the file is closed (flushed) when the block ends")
+                continue
+            cfg = cfg_of(f)
+            synced = [x for x in walk_local(f) if isinstance(x, ast.Call) and isinstance(x.func, ast.Attribute) and x.func.attr in ("flush", "close") and path_of(x.func.value) == rp]
+            sync_nodes = {nd for s in synced for nd in cfg.nodes_of(s)}
+            if synced and not any(cfg.reaches(cn, cfg.exit, avoid=sync_nodes, labels_excluded=("exc",)) for cn in cfg.nodes_of(c)):
+                ctx.ok(rid, c, f"{q}: `{rp}.write` is followed by flush()/close() on every path")
+            else:
+                ctx.bad(rid, c, f"{q}: `{rp}.write(...)` goes to a file handle that is not closed or flushed before the step is committed (restart.toml is written while the row is still in the process's buffer): if the main process dies, restart.toml says the step happened but the data-file row of the replaced path is lost - after continuing, that path appears zero times in the data file",
+                        construct=f"{q}: buffered write to {rp} before the commit")
+    if n < 3:
+        raise AnalysisError(f"R-8.9: only {n} file writes found on the per-step path (expected >= 3)")
+
+
 def run(ctx):
     ctx.rule("R-8.7", "one ensemble-index unit per store: self.locked entries offset-removed, restart.toml's locked and lock()/swap() indices in state-matrix rows", floor=4)
     ctx.rule("R-8.8", "the commit is final: nothing restart.toml serialises is modified after write_toml within the step", floor=1)
+    ctx.rule("R-8.9", "file writes of the per-step path reach the disk before the commit (handle bound by `with open`, or flushed/closed on every path)", floor=3)
     ctx.rule("R-8.1", "store before commit: numbered path reaches write_toml only through pstore.output; output() performs mkdir, txt files and moves on every path", floor=4)
     ctx.rule("R-8.2", "atomic commit: dump to a temporary name, os.replace over the file setup_config reads", floor=1)
     ctx.rule("R-8.3", "only retired paths are deleted: operands from the FIFO head, insertion after deletion, lag and initial-path guards", floor=5)
@@ -632,11 +686,14 @@ def run(ctx):
     ctx.attempt(r85, ctx)
     ctx.attempt(r86, ctx)
     ctx.attempt(r87, ctx)
+    ctx.attempt(r89, ctx)
     from .shared import commit_is_final
     ctx.attempt(commit_is_final, ctx, "R-8.8")
 
 
 VARIANTS = [
+    B("c08-data-rows-buffered-handle", REPEX, '    with open(state.data_file, "a") as fp:\n        for pn in pn_archive:', '    fp = state.__dict__.setdefault("_data_fp", open(state.data_file, "a"))\n    if True:\n        for pn in pn_archive:', "R-8.9", control=True, why="seeded C08_d (handle kept open between steps)"),
+    K("c08-keep-data-rows-explicit-close", REPEX, '    with open(state.data_file, "a") as fp:\n        for pn in pn_archive:', '    fp = open(state.data_file, "a")\n    try:\n        for pn in pn_archive:', also=[(REPEX, '            traj_data.pop(pn)\n', '            traj_data.pop(pn)\n    finally:\n        fp.close()\n')]),
     B("c08-commit-before-store", REPEX, '        pn_news = []\n        md_items["md_end"] = time.time()\n        picked = md_items["picked"]\n        traj_num = self.config["current"]["traj_num"]\n',
       '        pn_news = []\n        md_items["md_end"] = time.time()\n        picked = md_items["picked"]\n        traj_num = self.config["current"]["traj_num"]\n        self.write_toml()\n', "R-8.1", control=True),
     B("c08-store-skipped-lazily", REPEX, "                out_traj = self.pstore.output(self.cstep, data)\n", "                if self.cstep % 2:\n                    out_traj = self.pstore.output(self.cstep, data)\n", "R-8.1"),
